@@ -6,7 +6,7 @@
    matrix_from_callback are the executable model (coq/Cli_Model.v). *)
 From Coq Require Import String Ascii List ZArith QArith Bool Arith.
 From TK Require Import Cli_Model Cli_Spec Cli_Proof_Decide Cli_Proof_Files Cli_Proof_Transpose
-  Cli_Proof_Pre Cli_Proof_Main Cli_Proof_Gen Cli.
+  Cli_Proof_Pre Cli_Proof_Main Cli_Proof_Exit Cli_Proof_Gen Cli.
 Import ListNotations.
 Local Close Scope Q_scope.
 Local Open Scope string_scope.
@@ -89,6 +89,32 @@ Proof.
   - left. exists "llle". split; reflexivity.
   - right. right. right. right. left. exists 2%Z. split; reflexivity.
 Qed.
+
+(* ... and for nothing else: the exit status before the library is called, characterised completely *)
+Theorem cli_exit_iff : forall a,
+  cli_decide gen_tables a = Exit 1%Z <->
+  (args_ok doc_options a = false \/ flag (view_of a) ["h"; "help"] = true \/
+   bad_input (view_of a) \/ bad_strategy (view_of a)).
+Proof. exact gen_exit_iff. Qed.
+Print Assumptions cli_exit_iff.
+
+Theorem cli_valid_runs : forall a,
+  args_ok doc_options a = true -> flag (view_of a) ["h"; "help"] = false ->
+  ~ bad_input (view_of a) -> ~ bad_strategy (view_of a) ->
+  exists ps io, cli_decide gen_tables a = Run ps io.
+Proof. exact gen_valid_runs. Qed.
+Print Assumptions cli_valid_runs.
+
+(* a command line cxxopts accepts delivers values of the declared types *)
+Theorem cli_accepted_values_typed : forall ds a d v,
+  unambiguous ds = true -> args_ok ds a = true -> In d ds ->
+  given (o_names d) a = Some v -> kind_ok (o_default d) v = true.
+Proof. exact args_ok_given. Qed.
+Print Assumptions cli_accepted_values_typed.
+
+Example cli_accepted_values_typed_nonvacuous :
+  unambiguous gen_options = true /\ args_ok gen_options [("k", AVal "5" (Some 5%Z) (Some (5 # 1)%Q))] = true.
+Proof. split; vm_compute; reflexivity. Qed.
 
 Theorem cli_never_stuck : forall a, cli_decide gen_tables a <> Stuck.
 Proof. exact gen_never_stuck. Qed.
